@@ -13,7 +13,7 @@ from ..cfg import cfg_of
 from ..facts import conjuncts, registry_model
 from ..fold import RegexConst, fold_in_fn, fold_name, try_fold, Unknown
 from ..minieval import Evaluator, Obj, Raised, Unsupported
-from ..model import AnalysisError, Fn, ancestors, enclosing_fn, parent, text, walk_fn
+from ..model import AnalysisError, Undecided, Fn, ancestors, enclosing_fn, parent, text, walk_fn
 from ..tri import EndState, BodyResult, explore_body, truthy, T, F, N, U, X
 
 REPO_EXC = ("NorminetteError", "CParsingError", "MaybeInfiniteLoop", "UnexpectedEOF")
@@ -2323,7 +2323,7 @@ def rule_helpers(run, prog):
             try:
                 r = ev.call_function(pk.node, {"self": Obj("Context", tokens=toks), "pos": pos})
             except Unsupported as e:
-                raise AnalysisError(f"Context.peek_token outside the evaluable subset: {e}")
+                raise Undecided(f"Context.peek_token outside the evaluable subset: {e}")
             except (Raised, LookupError, TypeError, ValueError, AttributeError) as e:
                 r = e.name if isinstance(e, Raised) else type(e).__name__
             n_eval += 1
@@ -2342,7 +2342,7 @@ def rule_helpers(run, prog):
                 try:
                     r = ev.call_function(ck.node, {"self": Obj("Context", tokens=toks), "pos": pos, "value": val})
                 except Unsupported as e:
-                    raise AnalysisError(f"Context.check_token outside the evaluable subset: {e}")
+                    raise Undecided(f"Context.check_token outside the evaluable subset: {e}")
                 except (Raised, LookupError, TypeError, ValueError, AttributeError) as e:
                     r = e.name if isinstance(e, Raised) else type(e).__name__
                 inside = 0 <= pos < n
@@ -2393,7 +2393,7 @@ def rule_helpers(run, prog):
                     try:
                         r = ev.invoke(rp.node, [lexer_at(ev, src, pos)], {"offset": off, "collect": col})
                     except Unsupported as e:
-                        raise AnalysisError(f"Lexer.raw_peek outside the evaluable subset: {e}")
+                        raise Undecided(f"Lexer.raw_peek outside the evaluable subset: {e}")
                     except (Raised, LookupError, TypeError, ValueError, AttributeError) as e:
                         r = f"raises {type(e).__name__ if not isinstance(e, Raised) else e.name}"
                     want = src[pos + off: pos + off + col] if pos + off < len(src) else None
@@ -2417,7 +2417,7 @@ def rule_helpers(run, prog):
                     try:
                         r = ev.invoke(pk2.node, [lexer_at(ev, src, pos)], {"times": times, "offset": off})
                     except Unsupported as e:
-                        raise AnalysisError(f"Lexer.peek outside the evaluable subset: {e}")
+                        raise Undecided(f"Lexer.peek outside the evaluable subset: {e}")
                     except (Raised, LookupError, TypeError, ValueError, AttributeError) as e:
                         r = f"raises {type(e).__name__ if not isinstance(e, Raised) else e.name}"
                     n_eval += 1
@@ -2497,6 +2497,12 @@ def rule_dictkeys(run, prog):
                         run.ob("R-5.7", f"{fn.key}::{tname}[{text(n.slice, 40)}]", bad_in == "",
                                f"{fn.name} interpreted on {bad_in!r} raises KeyError at {tname}[...]", n, decided_by="interpretation")
                         continue
+                if vs is None and fn.cls is not None and fn.cls.name == "Lexer":
+                    # neither the guards nor the interpreter can relate the key to the table on this tree
+                    run.undecided.append({"rule_function": f"R-5.7 {fn.key}::{tname}[{text(n.slice, 40)}]",
+                                          "reason": "the keys reaching the table cannot be bounded from the dominating guards and "
+                                                    "the sub-parser is outside the evaluable subset"})
+                    continue
                 ok = vs is not None and vs <= keys
                 missing = sorted(vs - keys) if vs is not None else None
                 run.ob("R-5.7", f"{fn.key}::{tname}[{text(n.slice, 40)}]", ok,
